@@ -144,7 +144,26 @@ func (g *Gen) DrawTxs(max int) []txgen.Tx {
 		}
 		out = append(out, g.Draw())
 	}
+	// a transaction the node refuses before executing it (a transfer signed by somebody else's key) as the block's
+	// last transaction, in 1 of 8 blocks: whatever a refusal leaves behind meets the block-end hooks
+	if g.Uniform(8, "trail-refused") == 0 && len(g.W.G.U.Users) >= 2 {
+		us := g.W.G.U.Users
+		a := us[g.Uniform(len(us), "trail-from")]
+		b := us[(g.Uniform(len(us)-1, "trail-signer")+1+indexOfUser(us, a))%len(us)]
+		tx := txgen.Send(b, a.Addr, b.Addr, txgen.Amt("OLT", big.NewInt(int64(1+g.Uniform(1000, "trail-amt")))), g.W.Fee, g.W.Memo())
+		tx.Tags = []string{"signer-other", "refused-by-validate"}
+		out = append(out, g.note(tx))
+	}
 	return out
+}
+
+func indexOfUser(us []*sim.User, a *sim.User) int {
+	for i, x := range us {
+		if x == a {
+			return i
+		}
+	}
+	return 0
 }
 
 // DrawEnv draws the block environment (time gap, proposer, absentees, byzantine evidence).
